@@ -589,7 +589,7 @@ impl TcpStream {
             }
         };
         // decide the outcome now
-        let mut outcome = with(|w| {
+        let outcome = with(|w| {
             let o = match w.net.plans.get_mut(&addr).and_then(|q| q.pop_front()) {
                 Some(o) => o,
                 None => {
@@ -601,9 +601,19 @@ impl TcpStream {
                 }
             };
             w.event("connect_attempt", addr.port() as u64, 0);
-            o
+            w.net.attempts.push(ConnectAttempt {
+                at: w.now,
+                addr,
+                outcome: "pending",
+            });
+            (o, w.net.attempts.len() - 1)
         });
-        let started = kernel::now_ns();
+        let (mut outcome, att_idx) = outcome;
+        let set_outcome = |w: &mut kernel::World, o: &'static str| {
+            if let Some(a) = w.net.attempts.get_mut(att_idx) {
+                a.outcome = o;
+            }
+        };
         loop {
             match outcome {
                 ConnectOutcome::Slow(d, next) => {
@@ -614,33 +624,21 @@ impl TcpStream {
                 ConnectOutcome::Refused => {
                     with(|w| {
                         w.count("fault_connect_refused");
-                        w.net.attempts.push(ConnectAttempt {
-                            at: started,
-                            addr,
-                            outcome: "refused",
-                        });
+                        set_outcome(w, "refused");
                     });
                     return Err(io::Error::from(io::ErrorKind::ConnectionRefused));
                 }
                 ConnectOutcome::Error(kind) => {
                     with(|w| {
                         w.count("fault_connect_err");
-                        w.net.attempts.push(ConnectAttempt {
-                            at: started,
-                            addr,
-                            outcome: "error",
-                        });
+                        set_outcome(w, "error");
                     });
                     return Err(io::Error::from(kind));
                 }
                 ConnectOutcome::Accept => {
                     let (res, wk) = with(|w| {
                         if !w.net.listeners.contains_key(&addr) {
-                            w.net.attempts.push(ConnectAttempt {
-                                at: started,
-                                addr,
-                                outcome: "refused",
-                            });
+                            set_outcome(w, "refused");
                             return (Err(io::Error::from(io::ErrorKind::ConnectionRefused)), None);
                         }
                         let ip = w
@@ -652,11 +650,7 @@ impl TcpStream {
                         let l = w.net.listeners.get_mut(&addr).unwrap();
                         l.queue.push_back(id);
                         let wk = l.waker.take();
-                        w.net.attempts.push(ConnectAttempt {
-                            at: started,
-                            addr,
-                            outcome: "accepted",
-                        });
+                        set_outcome(w, "accepted");
                         (Ok(TcpStream { conn: id, side: 0 }), wk)
                     });
                     if let Some(wk) = wk {
